@@ -1,6 +1,7 @@
 package sse
 
 import (
+	"net"
 	"context"
 	"errors"
 	"io"
@@ -43,7 +44,17 @@ func (c *vhCtx) Done() <-chan struct{} {
 	}
 	return c.done
 }
-func (c *vhCtx) Err() error                  { return c.err }
+// Err synchronises like the real context does (it is a scheduling point of the interpreted
+// goroutines): non-nil exactly once the done channel is closed.
+func (c *vhCtx) Err() error {
+	verifYield()
+	select {
+	case <-c.done:
+		return c.err
+	default:
+		return nil
+	}
+}
 func (c *vhCtx) Value(any) any               { return nil }
 func (c *vhCtx) cancel() {
 	if c.err == nil {
@@ -64,6 +75,8 @@ type vhAttemptRec struct {
 	readErr    error
 	transportErr error
 }
+
+var vhErrDial error = &net.OpError{Op: "dial", Net: "tcp", Err: errors.New("verif: connection refused")}
 
 type vhBodyRC struct {
 	r      *vhReader
@@ -143,6 +156,9 @@ func (env *vhConnEnv) RoundTrip(req *http.Request) (*http.Response, error) {
 		rec.transportErr = vhErrTransport
 		if verifParam("SENTINEL", 0) == 1 && verifChoose("transport-err", 2) == 1 {
 			rec.transportErr = context.DeadlineExceeded
+		}
+		if verifParam("DIALERR", 0) == 1 && verifChoose("transport-err-kind", 2) == 1 {
+			rec.transportErr = vhErrDial // the connection could not even be established
 		}
 		env.attempts = append(env.attempts, rec)
 		return nil, rec.transportErr
@@ -579,4 +595,32 @@ func vhWithDeadline(d time.Duration, f func()) bool {
 	case <-time.After(d):
 		return false
 	}
+}
+
+// Two Connections made from the same *http.Request are independent: preparing a
+// reconnection of one (here: one that has no ID and deletes the header) does not change
+// what the other one sends.
+func vhC10TwoConns() {
+	req := &http.Request{Method: "GET", URL: &url.URL{Scheme: "http", Host: "verif.invalid", Path: "/"}, Header: http.Header{}}
+	cl := &Client{}
+	a := cl.NewConnection(req)
+	b := cl.NewConnection(req)
+	id := verifNondetString("id", 1)
+	verifAssume(!vhHasNL(id) && !vhHasNUL(id))
+	id = "a" + id
+	_ = a.read(&vhReader{data: []byte("id:" + id + "\n\n")}, func(time.Duration) {})
+	_ = b.read(&vhReader{data: []byte("data:x\n\n")}, func(time.Duration) {})
+	// both prepare a reconnection, in either order
+	first, second := a, b
+	if verifChoose("order", 2) == 1 {
+		first, second = b, a
+	}
+	for k := 0; k < 2; k++ { // the first call of each marks the first attempt, the second one resets
+		verifAssert(first.resetRequest() == nil && second.resetRequest() == nil, "C10/TwoConns/reset")
+	}
+	ha, oka := a.request.Header["Last-Event-Id"]
+	_, okb := b.request.Header["Last-Event-Id"]
+	verifAssert(oka && len(ha) == 1 && ha[0] == id, "C10/Connect/header-is-last-dispatched-event-id")
+	verifAssert(!okb, "C10/Connect/no-header-when-last-id-empty")
+	verifCover("C10/TwoConns/ran")
 }
